@@ -31,7 +31,7 @@ def cases(tier):
     C.append(("Uniform/default(parameter-dependent Sigmoid)", tfd.Uniform, dict(low=-1.0, high=2.0), ("default",), 0.5, ["var", "auto"]))
     C.append(("InverseGamma/default", tfd.InverseGamma, dict(concentration=2.0, scale=0.5), ("default",), 1.3, ["auto"]))
     C.append(("HalfNormal/Exp", tfd.HalfNormal, dict(scale=1.5), ("instance", lambda: tfb.Exp()), 0.8, ["var"]))
-    C.append(("Gamma vector (2,), per_obs=False / Exp", tfd.Gamma, dict(concentration=2.0, rate=0.5), ("instance", lambda: tfb.Exp()), (1.3, 0.6), ["var", "auto-default"]))
+    C.append(("Gamma vector (2,), per_obs=False / Exp", tfd.Gamma, dict(concentration=2.0, rate=0.5), ("instance", lambda: tfb.Exp()), (1.3, 0.6), ["var", "builder", "auto-default"]))
     if tier == "thorough":
         C.append(("Gamma/Exp", tfd.Gamma, dict(concentration=2.0, rate=0.5), ("instance", lambda: tfb.Exp()), 1.3, ["var", "builder"]))
         C.append(("HalfCauchy/Softplus", tfd.HalfCauchy, dict(loc=0.0, scale=25.0), ("instance", lambda: tfb.Softplus()), 1.3, ["var"]))
@@ -106,7 +106,7 @@ def scenario(chk, label, D, params, bij, v0, entry):
     st = model.state
     pv0 = {f"p_{k}": jnp.asarray(float(v)) for k, v in params.items()} | {k: jnp.asarray(float(v)) for k, v in bvars.items()}
     t0 = jnp.asarray(np.asarray(model.vars["x_transformed"].value, dtype=np.float32))
-    per_obs = model.vars["x_transformed"].dist_node.per_obs
+    per_obs = "per_obs=False" not in label          # the option set on the ORIGINAL distribution node (not read back from the model under test)
 
     def f(t, pvals):
         new = iface.update_state({"x_transformed": t} | pvals, st)
